@@ -81,12 +81,15 @@ def packet_ids_of(ids):
     return [PacketId.from_raw(x) for x in ids]
 
 
-@obligation(["C13"], "parse_space_packets", verifies=[Q, "spacepackets.ccsds.spacepacket:__handle_packet_id_match"], feas_timeout_ms=150, shards=14, shard_depth=10)
+@obligation(["C13", "C10"], "parse_space_packets", verifies=[Q, "spacepackets.ccsds.spacepacket:__handle_packet_id_match"], feas_timeout_ms=150, shards=14, shard_depth=10)
 def parse_call(queue: Chunks, ids: IDS):
     B = concat_chunks(queue)
     unfold(ref_scan, B, 0, ids)
     unfold(ref_end, B, 0, ids)
-    r = parse_space_packets(queue, packet_ids_of(ids))
+    o = outcome(parse_space_packets, queue, packet_ids_of(ids))
+    ensures("raises-nothing", o.ok)       # C10: whatever the queue holds, the parser returns (no struct.error / IndexError)
+    requires(o.ok)
+    r = o.value
     ensures("returns-reference-scan", r == ref_scan(B, 0, ids))
     e = ref_end(B, 0, ids)
     ensures("end-in-range", both(0 <= e, e <= len(B)))
